@@ -116,7 +116,7 @@ pub fn exec(c: &Case) -> Outcome {
                                 std::thread::sleep(Duration::from_millis(5));
                             }
                         }
-                        std::mem::forget(ch);
+                        std::mem::forget(ch); // (a few hundred cases per run: the two leaked descriptors per case do not matter)
                         n
                     }));
                 }
